@@ -264,8 +264,18 @@ impl TokenManager {
         let start_time = Instant::now();
 
         // Try to get a cached token first
+        // The thread-local cache is shared by every TokenManager used on this thread:
+        // only a token issued by this manager's VersionManager may be reused here.
         let token = TOKEN_CACHE.with(|cache| {
-            cache.borrow_mut().get_reader_token()
+            let mut cache = cache.borrow_mut();
+            match cache.get_reader_token() {
+                Some(token) if token.issued_by(&self.version_manager) => Some(token),
+                Some(foreign) => {
+                    cache.cache_reader_token(foreign);
+                    None
+                }
+                None => None,
+            }
         });
 
         let token = if let Some(cached_token) = token {
@@ -298,8 +308,17 @@ impl TokenManager {
         let start_time = Instant::now();
 
         // Try to get a cached token first
+        // See acquire_reader_token: never hand out another manager's cached token.
         let token = TOKEN_CACHE.with(|cache| {
-            cache.borrow_mut().get_writer_token()
+            let mut cache = cache.borrow_mut();
+            match cache.get_writer_token() {
+                Some(token) if token.issued_by(&self.version_manager) => Some(token),
+                Some(foreign) => {
+                    cache.cache_writer_token(foreign);
+                    None
+                }
+                None => None,
+            }
         });
 
         let token = if let Some(cached_token) = token {
